@@ -928,6 +928,9 @@ def exec_mutation(world, actor, rec):
                         props.add("C04")
                     if clause in ("members", "edge_attrs", "edge_set"):
                         props.add("C04")
+                if op == "merge_duplicate_edges" and clause in ("missing_new_edge", "edge_set") and \
+                        a.get("rename") == "new":
+                    props.add("C04")  # the merged edge is given an *automatic* ID
                 if actor.kind == "SC" and exc is None and clause in ("edge_set", "members", "missing_new_edge"):
                     props.add("C03")
                 if rej is not None and rej.why == "frozen" or actor.model.frozen:
